@@ -1,6 +1,6 @@
 import FlytModel.Generated.IR
 import FlytModel.Expected.IR
-/-! The translation of `NewFlow` from the CURRENT source is, term for term, the IR the refinement theorems are about. -/
+/-! The translation of `NewFlow` from the CURRENT source is, term for term, the expected IR. -/
 namespace Flyt.Tie
 theorem NewFlow : Flyt.Generated.IR.NewFlow = Flyt.Expected.IR.NewFlow := rfl
 end Flyt.Tie
